@@ -84,6 +84,10 @@ CLAIMED = {
             "bounded-exhaustive enumeration of (module, every character offset, line-truncation variant, settings) with the symtable-validated reference binder as the oracle for visibility and definition lines",
             "For 284 modules of 8 scoping schemas, code_assist is called at every character offset on the intact module and on the module with the rest of the current line deleted, for maxfixes {1,3} x later_locals {T,F}; no exception other than RopeError may escape, every proposal extends the typed prefix, and on judged positions the offered module identifiers equal the names visible there per the binder (two-sided on the intact module); get_definition_location at every identifier token must give a binding line of the reference binding.",
             "binder validated against symtable per module; positions inside strings, comments, def/class/import/global lines and comprehension/lambda interiors are not judged for completeness", "3/C20"),
+    "C09": ("exploration",
+            "bounded-exhaustive enumeration of (project configuration, refactoring kind, every identifier offset, resources= restriction) with full snapshots of the project root and a sibling out-of-project folder before/after get_changes and do",
+            "20 refactoring kinds are requested at every identifier token of every module of 4 projects (plain; names imported from a sibling folder on python_path; ignored resources given by name and by a `//` pattern and imported by a normal module; a module with a syntax error), with resources= None / [this file] / [another file]; get_changes (or its refusal) must leave both trees byte- and mtime-identical, any exception must be a RopeError, and after do only announced, in-project, non-ignored resources may differ and the description must contain the real diff.",
+            "snapshots compare path set, kinds, bytes, mtimes; ignored files carried along by the announced move of their non-ignored folder are accepted", "3/C09"),
 }
 
 PENDING_REASON = "check not built yet in this session (see DESIGN.md section 8 build order); nothing is claimed for it"
